@@ -339,3 +339,25 @@ Definition c12_oracle (c : eng_case) (o : obs) : bool :=
   end.
 Definition c12_harness : harness :=
   {| H_case := eng_case; H_expected := c12_expected; H_agree := obs_eqb; H_oracle := c12_oracle |}.
+
+(* ---- C17: call counts of the six families at sizes n and 2n ---- *)
+From Parsley Require Import Cost.
+Inductive c17_case := C17 (k n : N) (small big : eng_case).
+Definition c17_expected (c : c17_case) : obs :=
+  match c with
+  | C17 k n _ _ =>
+    match nth_N families k with
+    | Some f => let a := obs_of_option ON (calls_of f (N.to_nat n)) in
+                OT "C17" [a; obs_of_option ON (calls_of f (2 * N.to_nat n)); a]
+    | None => OT "NoSuchFamily" []
+    end
+  end.
+(* the property on the implementation: same count on a repeated run, calls(2n) <= 16 calls(n), calls(n) <= 4 (n+1)^4 *)
+Definition c17_oracle (c : c17_case) (o : obs) : bool :=
+  match c, o with
+  | C17 _ n _ _, OT _ [OT _ [ON a]; OT _ [ON b]; OT _ [ON a']] =>
+    (a =? a') && (b <=? 16 * a) && (a <=? COST_C * (n + 1) ^ 4)
+  | _, _ => false
+  end.
+Definition c17_harness : harness :=
+  {| H_case := c17_case; H_expected := c17_expected; H_agree := obs_eqb; H_oracle := c17_oracle |}.
